@@ -130,6 +130,8 @@ def pcgls_cases(draw, tier="quick"):
     c["Pd"] = draw(st.lists(gen.fl(0.5, 3.0), min_size=n, max_size=n))
     c["Po"] = draw(gen.fl(-0.2, 0.2))
     c["solve_branch"] = draw(st.booleans())
+    c["pshift"] = draw(st.sampled_from([0.0, 0.0, 0.1, 1.0, 7.5]))
+    c["Ppow"] = draw(st.sampled_from([0, 0, 0, 6, -6]))
     return c
 
 
@@ -142,7 +144,8 @@ def run_pcgls(c, rec):
     if c.get("special") == "zero_rhs":
         b = gen.relayout(np.zeros(m), c.get("layout", "plain"))
     elif c.get("special") == "start_at_solution" and m >= n:
-        x0 = gen.relayout(np.linalg.solve(Am.T @ Am, Am.T @ b), c.get("layout", "plain"))
+        shs = float(c.get("pshift", 0.0)) * 10.0 ** (2 * c.get("Apow", 0))
+        x0 = gen.relayout(np.linalg.solve(Am.T @ Am + shs * np.eye(n), Am.T @ b), c.get("layout", "plain"))
     if c["Pkind"] == "identity":
         P = np.eye(n)
     elif c["Pkind"] == "diag":
@@ -154,7 +157,8 @@ def run_pcgls(c, rec):
     else:
         P = np.diag(c["Pd"]) + np.tril(A(c["Pl"]), -1)
     tags = {"solver": "PCGLS", "form": c["form"], "P": c["Pkind"], "shape": "over" if m > n else ("under" if m < n else "square"),
-            "branch": "solve" if c.get("solve_branch") else "explicit_inverse", "special": str(c.get("special"))}
+            "branch": "solve" if c.get("solve_branch") else "explicit_inverse", "special": str(c.get("special")), "shift": bool(c.get("pshift")),
+            "Ppow": c.get("Ppow", 0)}
     if rec.classify(tags, c["Pkind"] != "identity" and (m != n or np.any(x0 != 0))):
         return
     maxit = 50 * n + 200
@@ -173,19 +177,25 @@ def _run_pcgls_body(c, rec, Am, P, b, x0, m, n, maxit):
     import cuqi
     import scipy.sparse as sp
     bc0 = b.copy()
-    sol, k = must(lambda: cuqi.solver._solver.PCGLS(op_forms(Am, c["form"]), b, x0, sp.csc_matrix(P), maxit, 1e-12).solve(), "PCGLS.solve")
+    # shift (Tikhonov term): accepted by the constructor like CGLS' - the shifted normal equations (A^T A + shift I) x = A^T b
+    sh = float(c.get("pshift", 0.0)) * 10.0 ** (2 * c.get("Apow", 0))
+    kw = {"shift": sh} if sh else {}
+    Pm = P * 10.0 ** c.get("Ppow", 0)     # a preconditioner of another overall size preconditions the same system
+    sol, k = must(lambda: cuqi.solver._solver.PCGLS(op_forms(Am, c["form"]), b, x0, sp.csc_matrix(Pm), maxit, 1e-12, **kw).solve(), "PCGLS.solve")
     require(maxdiff(b, bc0) == 0, "PCGLS altered the caller's right-hand side b")
-    if k >= maxit and m < n:
+    if k >= maxit and m < n and sh == 0:
         rec.inconc("pcgls_iteration_cap_singular_normal_equations")   # under-determined: A^T A is singular
         return
     require(k < maxit, "PCGLS did not converge within 50 n + 200 iterations on a well-conditioned system", k=k, maxit=maxit)
-    g = Am.T @ (b - Am @ sol)
-    scale = np.linalg.norm(Am.T @ b) + np.linalg.norm(Am) ** 2 * (np.linalg.norm(sol) + np.linalg.norm(x0)) + 1e-140
-    require(np.linalg.norm(g) <= 1e-7 * scale, "PCGLS result does not solve the normal equations A^T A x = A^T b",
-            residual=np.linalg.norm(g), k=k)
-    ref = np.linalg.solve(Am.T @ Am, Am.T @ b) if m >= n else x0 + _min_P_correction(Am, P, b - Am @ x0)
-    require(maxdiff(sol, ref) <= 1e-6 * (np.max(np.abs(ref)) + np.max(np.abs(x0))) + 1e-140, "PCGLS result differs from the reference solution", got=sol, ref=ref)
-    sol2, k2 = cuqi.solver._solver.PCGLS(op_forms(Am, other_form(c["form"])), b, x0, sp.csc_matrix(P), maxit, 1e-12).solve()
+    H = Am.T @ Am + sh * np.eye(n)
+    g = Am.T @ b - H @ sol
+    scale = np.linalg.norm(Am.T @ b) + np.linalg.norm(H) * (np.linalg.norm(sol) + np.linalg.norm(x0)) + 1e-140
+    require(np.linalg.norm(g) <= 1e-7 * scale, "PCGLS result does not solve the (shifted) normal equations (A^T A + shift I) x = A^T b",
+            residual=np.linalg.norm(g), k=k, shift=sh)
+    ref = np.linalg.solve(H, Am.T @ b) if (m >= n or sh > 0) else x0 + _min_P_correction(Am, Pm, b - Am @ x0)
+    require(maxdiff(sol, ref) <= 1e-6 * (np.max(np.abs(ref)) + np.max(np.abs(x0))) + 1e-140, "PCGLS result differs from the reference solution", got=sol, ref=ref,
+            shift=sh)
+    sol2, k2 = cuqi.solver._solver.PCGLS(op_forms(Am, other_form(c["form"])), b, x0, sp.csc_matrix(Pm), maxit, 1e-12, **kw).solve()
     require(k2 == k and maxdiff(sol2, sol) <= 1e-10 * (np.max(np.abs(sol)) + np.max(np.abs(x0))) + 1e-140, "matrix form and function form of PCGLS disagree")
 
 
